@@ -132,4 +132,17 @@ def build(bt, spec, algos_for=None):
             mk(c, p, parent=node)  # registers itself in `node` (no deep copy)
         return node
 
-    return mk(spec, ())
+    root = mk(spec, ())
+
+    def preset(s, node):
+        # a setting made on part of the tree before anything is pushed from the top (the tree is then in a mixed state)
+        if s["k"] != "S":
+            return
+        for c in s.get("children", []):
+            if c["k"] == "S" and c["name"] in node.children:
+                preset(c, node.children[c["name"]])
+        if "pre_int" in s:
+            node.use_integer_positions(bool(s["pre_int"]))
+
+    preset(spec, root)
+    return root
